@@ -7,7 +7,8 @@ VERIF = os.path.dirname(os.path.dirname(os.path.abspath(__file__)))
 
 # properties whose model consumes atoms read from the source by tools/gen_source_lean.py
 SOURCE_ATOMS = {
-    'C10': '(how `limit` is tested in the in-memory and file based cassettes; the S3 window operators)',
+    'C05': '(whether `disable_recording()` discards the recording in flight - fix F15)',
+    'C10': '(how `limit` is tested in the in-memory and file based cassettes; how the file cassette cuts the id out of a listed file name - fix F14; the S3 window operators)',
     'C14': '(the operator table of `_operator_filter`)',
     'C15': '(the S3 key layout constants)',
     'C16': '(the two comparison operators of the last-modified window, the day-folder count of `_get_id_prefixes`)',
